@@ -65,7 +65,8 @@ AgreeOk(e) ==
 (* The property does not say WHICH of its two outcomes a run must take when only the messages cannot be printed, nor that a        *)
 (* failure may not be a panic: only that the outcome is one of the two.                                                            *)
 (*       "absent-fsize" / "file-fsize" (absent / existing regular file, and the process cannot write a byte to any regular file)    *)
-RegularDest == {"absent", "file", "longer", "nonutf8", "longutf8", "absent-outfull", "file-outfull"}
+(*       "absent-msgfail" / "file-msgfail" (stdout stops accepting data after the first message)                                  *)
+RegularDest == {"absent", "file", "longer", "nonutf8", "longutf8", "absent-outfull", "file-outfull", "absent-msgfail", "file-msgfail"}
 Unwritable  == {"devfull", "nodir", "absent-fsize", "file-fsize"}
 AtomicOk(e) ==
   LET ok == Accepts(e.ast, e.stack) IN
@@ -76,6 +77,14 @@ AtomicOk(e) ==
   /\ e.litter = 0                      \* no temporary file is left next to the destination
   (* system-call order (when strace could observe it): nothing is created or truncated before assembly has fully succeeded *)
   /\ (~ok /\ e.opens >= 0 => e.opens = 0)
+
+(* the system calls of one run, replayed through the protocol model of the repaired code (Compile.tla).  A rejection here  *)
+(* means the code no longer follows the modelled protocol - reported in the evidence as drift, NOT as a violation of C08:    *)
+(* C08 itself is AtomicOk, which does not care how the outcome was reached.                                                  *)
+Proto == INSTANCE Compile WITH Design <- "rename", MsgFatal <- FALSE
+SysOk(e) ==
+  LET fin == Proto!Run(Proto!Start(e.kind, e.d0, Accepts(e.ast, e.stack)), e.sys)
+  IN  fin.ph = "exited" /\ fin.code = e.code /\ Proto!AllOrNothing(fin) /\ Proto!NoLitter(fin)
 
 (* ---- C18: feature gate at the command line ---- *)
 GateOk(e) ==
@@ -117,6 +126,7 @@ Explains(e) ==
     [] e.ev = "dbgpair"   -> DbgPairOk(e)
     [] e.ev = "agree"     -> AgreeOk(e)
     [] e.ev = "atomic"    -> AtomicOk(e)
+    [] e.ev = "compile_sys" -> SysOk(e)
     [] e.ev = "gate"      -> GateOk(e)
     [] e.ev = "featarg"   -> FeatArgOk(e)
     [] OTHER -> FALSE
